@@ -14,6 +14,9 @@ use rdp::core::event::{KeyboardEvent, PointerButton, PointerEvent, RdpEvent};
 use rdp::core::global::{ts_keyboard_event, ts_pointer_event};
 use serde_json::{json, Value};
 
+/// characters at the edges of the UTF-16 encoding: last one-unit scalars, first / last surrogate pairs
+const EDGE_CHARS: [char; 12] = ['\u{7f}', '\u{d7ff}', '\u{e000}', '\u{fffd}', '\u{ffff}', '\u{10000}', '\u{103ff}', '\u{1f511}', '\u{10fbff}', '\u{10fc00}', '\u{10ffff}', '\u{100000}'];
+
 fn units(s: &str) -> usize {
     s.encode_utf16().count()
 }
@@ -70,6 +73,21 @@ pub fn make_case(class: u64, idx: u64, seed: u64) -> Case {
             // client names around the 15-character / 32-byte field boundary
             let n = (idx % 24) as usize;
             c.cfg.name = string_of_units(&mut r, n, idx / 24);
+            if (idx / 24) % 2 == 1 {
+                // an edge character starting at unit position 11..=16 of a name of n units
+                let k = idx / 48;
+                let e = EDGE_CHARS[(k % EDGE_CHARS.len() as u64) as usize];
+                let pos = 11 + (k / EDGE_CHARS.len() as u64 % 6) as usize;
+                let mut s = String::new();
+                for i in 0..pos {
+                    s.push((b'a' + (i % 26) as u8) as char);
+                }
+                s.push(e);
+                while units(&s) < n.max(pos + e.len_utf16()) {
+                    s.push('z');
+                }
+                c.cfg.name = s;
+            }
             c.class = "client-name-boundary";
         }
         _ => {
@@ -92,7 +110,7 @@ pub fn make_case(class: u64, idx: u64, seed: u64) -> Case {
 
 fn describe(c: &Case) -> Value {
     json!({"gen": [c.gen_class, c.idx, c.seed], "class": c.class, "transport": c.transport, "cfg": c.cfg.to_json(),
-           "name_units": units(&c.cfg.name), "cred_units": units(&c.cfg.domain) + units(&c.cfg.user) + units(&c.cfg.password),
+           "write_chunk": if c.write_chunk == usize::MAX { 0 } else { c.write_chunk }, "name_units": units(&c.cfg.name), "cred_units": units(&c.cfg.domain) + units(&c.cfg.user) + units(&c.cfg.password),
            "user_id": c.profile.user_id, "version": c.profile.version})
 }
 
@@ -112,6 +130,7 @@ fn drive(c: &Case) -> Result<Seen, mon::PanicInfo> {
     d.with(|s| {
         s.tls_identity = c.tls_identity;
         s.tls12_only = c.tls12_only;
+        s.write_chunk = c.write_chunk;
         s.nla_cfg = nla;
     });
     let probe = d.clone();
@@ -182,6 +201,9 @@ fn drive(c: &Case) -> Result<Seen, mon::PanicInfo> {
                 nla.push(format!("NTLM AUTHENTICATE: {}", e));
             }
         }
+        if !s.inbuf.is_empty() {
+            nla.push(format!("incomplete frame: {} bytes written by the client do not make a whole PDU", s.inbuf.len()));
+        }
         if let Some(Err(e)) = &s.nla_log.credentials {
             if !e.contains("checksum") && !e.contains("sequence") {
                 nla.push(format!("TSCredentials: {}", e));
@@ -239,7 +261,7 @@ pub fn check_case(c: &Case, rep: &mut Report) {
 pub fn run(cfg: &Cfg) -> Report {
     let seed = cfg.seed;
     let mut total = Report::new();
-    let plan: Vec<(u64, u64)> = vec![(0, cfg.n(8_000, 150_000)), (1, cfg.n(1_500, 20_000)), (2, cfg.n(24 * 40, 24 * 400)), (3, cfg.n(140 * 8, 140 * 80))];
+    let plan: Vec<(u64, u64)> = vec![(0, cfg.n(8_000, 150_000)), (1, cfg.n(1_500, 20_000)), (2, cfg.n(48 * 72, 48 * 72 * 6)), (3, cfg.n(140 * 8, 140 * 80))];
     for (class, n) in plan {
         if !cfg.wants(class) {
             continue;
